@@ -95,12 +95,31 @@ def gen_alignment(asc, seed):
     return notes, controls, align
 
 
+def tiny_fine(k):
+    """a boundary score: 256 divisions per quarter (the finest grid whose positions the format writes as exact fractions
+    of a whole note, denominator 1024) with notes that start and end on odd divisions"""
+    cuts = sorted(set([0, 1024] + [k.choice((1, 255, 257, 511, 513, 767, 1023, 256, 768)) for _ in range(k.choice((2, 3, 4)))]))
+    notes = []
+    for i, (a, b) in enumerate(zip(cuts, cuts[1:])):
+        notes.append({"id": "p1n%d" % (i + 1), "kind": "note", "t": a, "e": b, "voice": 1, "staff": 1, "sym": None, "m": 0, "g": None, "step": "CDEFGAB"[i % 7], "alter": None, "octave": 4})
+    part = {
+        "id": "P1", "name": "Part P1", "abbr": None, "qdivs": [[0, 256]], "nstaves": 1, "end": 1024,
+        "measures": [{"s": 0, "e": 1024, "number": 1, "name": "1"}],
+        "timesigs": [{"t": 0, "beats": 4, "beat_type": 4}], "keysigs": [{"t": 0, "fifths": 0, "mode": "major"}],
+        "clefs": [{"t": 0, "staff": 1, "sign": "G", "line": 2, "oct": 0}],
+        "notes": notes, "slurs": [], "tuplets": [], "dirs": [], "tempos": [], "repeats": [], "endings": [], "nav": [], "fermatas": [],
+    }
+    return {"id": None, "parts": [part], "groups": None}
+
+
 def generate(seed, tier, cfg):
     st = R.Streams(seed)
     k, o, f = st.knobs, st.ops, st.faults
     if cfg == "fixture":
         return {"mode": "fixture", "pick": k.randrange(0, 1000), "disturb": {"dup": [o.randrange(0, 10**6) for _ in range(k.choice((0, 1, 3)))], "blank": [o.randrange(0, 10**6) for _ in range(k.choice((0, 1, 2)))]}, "knobs": {"chunk": k.choice((0, 7, 64))}, "ops": [], "faults": []}
     asc = gen.gen_score(st.workload, profile="match", size=gen.pick_size(tier, st.knobs))
+    if k.random() < 0.05:
+        asc = tiny_fine(k)
     # the format stores no measure lengths: what follows the last score note cannot be known, so the
     # final measure must hold a pitched note that ends with it (precondition "complete final measure")
     ap = asc["parts"][0]
